@@ -45,8 +45,61 @@ TReadOn == /\ Is("ReadOn") /\ Step /\ Ev.obj \in DOMAIN objs /\ Ev.name \in DOMA
 \* every member of an enumeration's domain is accepted by name and read back as assigned (stored name, typed read)
 TEnumAll == Is("EnumAll") /\ Step /\ Ev.obj \in DOMAIN objs /\ Ev.name \in DOMAIN objs[Ev.obj] /\ Ev.ok /\ UNCHANGED vars
 
+\* ---- driver-owned cases
+\* factory queries: has(id) <=> get(id) # nullptr (registered ids and an unknown one), every id has a description, ids(regex) is the
+\* subset of ids() matching the expression (prefix, suffix, one id, all, none - decided by the driver with plain string operations)
+TFactory == Is("Factory") /\ Step /\ Ev.hasOK /\ Ev.descOK /\ Ev.regexOK /\ UNCHANGED vars
+\* parameter construction (make_integer / make_scalar / make_*_pair): the default is validated like an assignment - constructed iff it is
+\* finite and in the domain (also empty domains, min = max, bounds of magnitude 1e9); r = <<min, value(s), max, stored value(s)>>
+TConstruct == /\ Is("Construct") /\ Step /\ UNCHANGED vars
+              /\ LET n == Arity(Ev) p == Rec(Ev, n) IN
+                 /\ Ev.constructed = (Ev.finite /\ InDomain(p))
+                 /\ Ev.constructed => SubSeq(Ev.r, n + 3, 2 * n + 2) = p.vals       \* read back as given
+\* a string assigned to a pair parameter: r = <<min, old1, old2, max, after1, after2, token...>>.  Fewer than two tokens: rejected; two:
+\* accepted iff in the domain; more (nothing says what is assigned then): rejected, or accepted with the first token and one of the
+\* others, in the domain.  Rejected = throws and leaves the previous pair.
+TAssignStr == /\ Is("AssignStr") /\ Step /\ UNCHANGED vars
+              /\ LET p == Rec(Ev, 2)
+                     after == SubSeq(Ev.r, 5, 6)
+                     toks == SubSeq(Ev.r, 7, 6 + Ev.ntok)
+                 IN /\ InDomain(p) /\ Len(Ev.r) = 6 + Ev.ntok
+                    /\ Ev.threw => after = p.vals
+                    /\ ~Ev.threw => /\ InDomain([p EXCEPT !.vals = after]) /\ Ev.ntok >= 2
+                                    /\ after[1] = toks[1] /\ \E i \in 2..Ev.ntok : after[2] = toks[i]
+                    /\ Ev.ntok < 2 => Ev.threw
+                    /\ Ev.ntok = 2 => (Ev.threw = ~InDomain([p EXCEPT !.vals = toks]))
+\* a configurable object of the driver's own: Create / Register of Configurable.tla (a duplicate name or an out-of-domain default throws and
+\* leaves the object unchanged: `same` = parameters() compares equal to before, `n` = number of parameters afterwards)
+TCreate == Is("Create") /\ Step /\ Create(Ev.obj)
+TRegister == /\ Is("Register") /\ Step /\ Ev.finite
+             /\ Register(Ev.obj, Ev.name, Canon(Rec(Ev, Arity(Ev))))
+             /\ Ev.threw = (last' = "threw") /\ (Ev.threw => Ev.same) /\ Ev.n = Cardinality(DOMAIN objs'[Ev.obj])
+\* config(name1, value1, name2, value2, ...): r of an item = <<min, old value(s), max, requested value(s), value(s) afterwards>>.
+\* Throws iff a name is unknown or a value is outside its domain; no throw: every pair is assigned; throw: a rejected value leaves its
+\* parameter as it was (the valid pairs of such a call are assigned or not: the statement does not say)
+TConfig == /\ Is("Config") /\ Step /\ Ev.obj \in DOMAIN objs
+           /\ LET o == Ev.obj
+                  it == Ev.items
+                  I == 1..Len(it)
+                  Known(i) == it[i].name \in DOMAIN objs[o]
+                  N(i) == Arity(it[i])
+                  Old(i) == Rec(it[i], N(i))
+                  Req(i) == [Old(i) EXCEPT !.vals = SubSeq(it[i].r, N(i) + 3, 2 * N(i) + 2)]
+                  Aft(i) == [Old(i) EXCEPT !.vals = SubSeq(it[i].r, 2 * N(i) + 3, 3 * N(i) + 2)]
+                  Valid(i) == Known(i) /\ InDomain(Req(i))
+              IN /\ \A i, j \in I : i # j => it[i].name # it[j].name
+                 /\ \A i \in I : Known(i) => objs[o][it[i].name] = Canon(Old(i))
+                 /\ Ev.threw = (\E i \in I : ~Valid(i))
+                 /\ ~Ev.threw => \A i \in I : Aft(i).vals = Req(i).vals
+                 /\ Ev.threw => \A i \in I : Known(i) => IF InDomain(Req(i)) THEN Aft(i).vals \in {Old(i).vals, Req(i).vals}
+                                                                             ELSE Aft(i).vals = Old(i).vals
+                 /\ objs' = [objs EXCEPT ![o] = [nm \in DOMAIN objs[o] |->
+                                 IF \E i \in I : it[i].name = nm THEN Canon(Aft(CHOOSE i \in I : it[i].name = nm)) ELSE objs[o][nm]]]
+                 /\ last' = IF Ev.threw THEN "threw" ELSE "ok"
+
 TraceInit == l = 1 /\ Init
 TraceNext == TEnumAll \/ TReset \/ TGet \/ TGetUnknown \/ TParam \/ TLookup \/ TClone \/ TAssignOn \/ TReadOn
+             \/ TFactory \/ TConstruct \/ TAssignStr \/ TCreate \/ TRegister \/ TConfig
 Accepted == LET d == TLCGet("stats").diameter IN
             IF d - 1 = Len(TraceLog) THEN TRUE ELSE PrintT(<<"REJECTED_AT", d>>) /\ FALSE
 ========================================================================================
